@@ -3,6 +3,7 @@
 `ast` pass over the LIVE source of the function (whatever $UNYT_REPO holds):
 
 * which element of the input gives `ff` (`getattr(input_object[k], "units", …)`),
+* whether the test guarding the mixed branch looks at every element,
 * whether the mixed branch labels its result with `ff`,
 * what the "no unit differs" branch stores,
 * the BODY of the per-element loop `for datum in input_object:` as a `CoProg.Stmt` tree
@@ -189,7 +190,7 @@ class Tr:
                             loop, parent = s, (n, blk)
         if loop is None or self.ff is None:
             self.notes.append("loop or ff assignment not found")
-            return {"ffFromFirst": False, "labelIsFf": False, "elseVal": "Val.unknown", "body": "Stmt.unknown"}
+            return {"ffFromFirst": False, "mixedTestAll": False, "labelIsFf": False, "elseVal": "Val.unknown", "body": "Stmt.unknown"}
         self.datum = loop.target.id
         owner, blk = parent
         sink = None
@@ -211,13 +212,32 @@ class Tr:
                             return True
             return False
 
+        # the test guarding the mixed branch: any(ff != getattr(_, "units", …) for _ in input_object)
+        mixed_all = False
+        if isinstance(owner, ast.If) and blk is owner.body:
+            t = owner.test
+            if isinstance(t, ast.Call) and isinstance(t.func, ast.Name) and t.func.id == "any" and len(t.args) == 1 and not t.keywords \
+                    and isinstance(t.args[0], ast.GeneratorExp) and len(t.args[0].generators) == 1:
+                g = t.args[0].generators[0]
+                e = t.args[0].elt
+                if isinstance(g.iter, ast.Name) and g.iter.id == self.param and not g.ifs and isinstance(g.target, ast.Name) \
+                        and isinstance(e, ast.Compare) and len(e.ops) == 1 and isinstance(e.ops[0], ast.NotEq):
+                    def elem_units(x):
+                        return (isinstance(x, ast.Call) and isinstance(x.func, ast.Name) and x.func.id == "getattr" and len(x.args) >= 2
+                                and isinstance(x.args[0], ast.Name) and x.args[0].id == g.target.id
+                                and isinstance(x.args[1], ast.Constant) and x.args[1].value == "units") or \
+                               (isinstance(x, ast.Attribute) and x.attr == "units" and isinstance(x.value, ast.Name) and x.value.id == g.target.id)
+                    a, b = e.left, e.comparators[0]
+                    mixed_all = (self.is_ff(a) and elem_units(b)) or (self.is_ff(b) and elem_units(a))
+        if not mixed_all:
+            self.notes.append("mixed-units test not recognised")
         label = builds(blk[blk.index(loop) + 1:], sink)
         else_val = "Val.unknown"
         if isinstance(owner, ast.If) and blk is owner.body and builds(owner.orelse, self.param):
             else_val = "Val.raw"
         else:
             self.notes.append("uniform branch not recognised")
-        return {"ffFromFirst": self.ff_index == 0, "labelIsFf": bool(label), "elseVal": else_val, "body": body}
+        return {"ffFromFirst": self.ff_index == 0, "mixedTestAll": bool(mixed_all), "labelIsFf": bool(label), "elseVal": else_val, "body": body}
 
 
 def translate(src):
@@ -238,7 +258,7 @@ def generate(X):
         X.header("UnytModel.C16CoerceProg")
         + "namespace Unyt.Generated\nopen Unyt.CoProg\n\n"
         + "/-- `unyt/array.py:_coerce_iterable_units` via ast: ff index, result label, uniform branch, loop body -/\n"
-        + f"def c16CoerceProg : Prog :=\n  ⟨{b(prog['ffFromFirst'])}, {b(prog['labelIsFf'])}, {prog['elseVal']},\n   {prog['body']}⟩\n\n"
+        + f"def c16CoerceProg : Prog :=\n  ⟨{b(prog['ffFromFirst'])}, {b(prog['mixedTestAll'])}, {b(prog['labelIsFf'])}, {prog['elseVal']},\n   {prog['body']}⟩\n\n"
         + "end Unyt.Generated\n"
     )
     X.write_if_changed(os.path.join(X.GEN, "C16Coerce.lean"), text)
